@@ -529,7 +529,8 @@ def cond_rule(ctx, code, inst, shape, oc, inst_o, where):
                     nowrite.append(cls)
                     continue
                 v = U.strip(ws[-1][3])
-                if not A.is_int(v) or v[1] != (1 if exp else 0):
+                val = v[1] if A.is_int(v) else A.bv_value(A.bitvec(ws[-1][3], o.path))
+                if val != (1 if exp else 0):
                     wrong.append((cls, A.show(v)))
             else:
                 moved = False
